@@ -34,6 +34,7 @@ type chanView struct {
 	Topic string          `json:"topic"`
 	Key   string          `json:"key"`
 	Limit int             `json:"limit"`
+	Flags string          `json:"flags"`
 	Nicks json.RawMessage `json:"nicks"`
 }
 
@@ -205,7 +206,7 @@ func (r *rig) apply(e *edge, check bool) string {
 			for c, cv := range chans {
 				ms := map[string][]string{}
 				obj(cv.Nicks, &ms)
-				ch := trk.ChanV{Name: c, Topic: cv.Topic, Key: cv.Key, Limit: cv.Limit, Nicks: map[string]string{}}
+				ch := trk.ChanV{Name: c, Topic: cv.Topic, Key: cv.Key, Limit: cv.Limit, Flags: cv.Flags, Nicks: map[string]string{}}
 				for n, p := range ms {
 					ch.Nicks[n] = privChars(p)
 					if nv, ok := wantV.Nicks[n]; ok {
@@ -214,8 +215,8 @@ func (r *rig) apply(e *edge, check bool) string {
 				}
 				wantV.Chans[c] = ch
 			}
-			// what the claim leaves open is normalised on both sides: user modes, real names, channel
-			// flags, the client's own user@host, user@host not (yet) confirmed by a WHO reply
+			// what the claim leaves open is normalised on both sides: user modes, real names,
+			// the client's own user@host, user@host not (yet) confirmed by a WHO reply
 			for n, nv := range gotV.Nicks {
 				nv.Modes, nv.Name = "", ""
 				w, known := wantV.Nicks[n]
@@ -240,10 +241,6 @@ func (r *rig) apply(e *edge, check bool) string {
 					w.Ident, w.Host = "", ""
 					wantV.Nicks[n] = w
 				}
-			}
-			for c, cv := range gotV.Chans {
-				cv.Flags = ""
-				gotV.Chans[c] = cv
 			}
 			if gotV.Key() != wantV.Key() {
 				msgs = append(msgs, fmt.Sprintf("C13: after %s the tracker holds %s, the protocol has revealed %s", o.Ev, gotV.Key(), wantV.Key()))
